@@ -156,6 +156,7 @@ def convert(
             verbose=verbose,
             stiff_states=stiff_states,
             delta=delta,
+            backend=gotran2py.Backend.jax if jax else gotran2py.Backend.numpy,
         )
 
     if to in {".ode"}:
